@@ -475,7 +475,9 @@ class Slice:
         # We copy the front delta_time to keep indices in sync with the main timeline.
         delta_time = np.hstack((delta_time[0], delta_time))
 
-        start_idx = np.searchsorted(timestamps - delta_time[0], self._src.start)
+        # Each window starts at its own `timestamp - delta_time`; only keep windows that start
+        # inside this slice (the first window length is not representative after a rate change)
+        start_idx = np.searchsorted(timestamps - delta_time, self._src.start)
         stop_idx = np.searchsorted(timestamps, self._src.stop)
         timestamps = timestamps[start_idx:stop_idx]
         delta_time = delta_time[start_idx:stop_idx]
